@@ -153,8 +153,8 @@ func ruleR15_3(c *Check) {
 	r := c.Rule("R15.3", "E3+E1", 4, "every store to Item.vptr is in an API whose items are pinned: Iterator.fill (iterators are created only by Txn.NewIterator, which increments the value log's iterator count before building the iterator, and Iterator.Close decrements it on every path that had an underlying iterator); Txn.Get hands out items without a pin",
 		"an item's value is read lazily through its pointer; if GC may delete the file while the transaction is open, the value silently reads back empty")
 	vptr := w.Field("badger.Item.vptr")
-	inc := selCallName(w, "badger.valueLog.incrIteratorCount")
-	dec := selCallName(w, "badger.valueLog.decrIteratorCount")
+	inc := counterSel(w, w.Field("badger.valueLog.numActiveIterators"), +1)
+	dec := counterSel(w, w.Field("badger.valueLog.numActiveIterators"), -1)
 	var k keyer
 	for _, o := range allStores(w, vptr) {
 		switch o.SiteFn.Root().Name {
@@ -520,4 +520,60 @@ func propC06(c *Check) {
 	ruleR06_1(c)
 	ruleR06_2(c)
 	ruleR06_3(c)
+}
+
+// counterSel selects the sites that move an atomic counter field in one direction: a direct
+// `x.fld.Add(k)` with a constant k of the given sign, or a call to a function of the package
+// whose body does that (and does not also move it the other way), such as incrIteratorCount.
+func counterSel(w *World, fld *types.Var, sign int) Sel {
+	direct := func(n ast.Node) int {
+		call, ok := n.(*ast.CallExpr)
+		if !ok || len(call.Args) != 1 {
+			return 0
+		}
+		se, ok := unparen(call.Fun).(*ast.SelectorExpr)
+		if !ok || se.Sel.Name != "Add" || w.fieldOf(se.X) != fld {
+			return 0
+		}
+		v, isC := w.constInt(call.Args[0])
+		switch {
+		case !isC:
+			return 0
+		case v > 0:
+			return 1
+		case v < 0:
+			return -1
+		}
+		return 0
+	}
+	movers := map[types.Object]bool{}
+	for _, f := range w.Fns {
+		if f.Obj == nil || f.Body == nil {
+			continue
+		}
+		up, down := false, false
+		f.walk(func(n ast.Node) bool {
+			switch direct(n) {
+			case 1:
+				up = true
+			case -1:
+				down = true
+			}
+			return true
+		})
+		if (sign > 0 && up && !down) || (sign < 0 && down && !up) {
+			movers[f.Obj] = true
+		}
+	}
+	return selPred("counter:"+fld.Name(), func(w *World, f *Fn, n ast.Node) bool {
+		call, ok := n.(*ast.CallExpr)
+		if !ok {
+			return false
+		}
+		if d := direct(call); d != 0 {
+			return (d > 0) == (sign > 0)
+		}
+		o := w.Callee(call)
+		return o != nil && movers[o]
+	})
 }
